@@ -14,6 +14,7 @@ import sys
 from .common import *
 from . import coregen as cg
 from .corecheck import Case, three_way, replay_file
+from . import c02_structs as cs
 
 TRANSLATOR = os.path.join(VERIF, "translate", "ops.py")
 
@@ -352,16 +353,17 @@ class SugarPrinter(cg.Printer):
 BINDING_PRONE = re.compile(r"[A-Za-z_]\w*\s*<(?!=)[^;]*>")
 
 
-def spell(chk, ds, rng):
+def spell(chk, ds, rng, printer=None):
     """source text in a random sugar spelling that stays clear of the grammar's generic binding `name<types>`
     (a `<` after a name with a `>` later in the same statement, see design/C02.md: known finding
     c02:generic-binding:compile-err, replayed by generic_binding_cases); falls back to the call form"""
+    printer = printer or SugarPrinter
     for _ in range(20):
-        src = SugarPrinter(rng).program(ds)
+        src = printer(rng).program(ds)
         if not BINDING_PRONE.search(src):
             return src
         chk.count("respelled:generic-binding")
-    return cg.Printer(None, sugar=False).program(ds)
+    return printer(None, sugar=False).program(ds)
 
 
 def generic_binding_cases():
@@ -608,6 +610,98 @@ def run_library_order(chk):
     chk.coverage["generic_binding_texts"] = dict(zip(texts, rs))
 
 
+# ------------------------------------------------------------------------------------------------ alias table, derived comparisons
+
+def check_book_table(chk):
+    """the book's alias table (read now) = the parser's tables (extracted now by translate/ops.py) = the table this check
+    and the theorem `table_documented` were written against: a new or renamed operator shows up here"""
+    import importlib.util
+    spec = importlib.util.spec_from_file_location("c02_ops_translator", TRANSLATOR)
+    ops = importlib.util.module_from_spec(spec)
+    spec.loader.exec_module(ops)
+    binary, unary = ops.read_pest()
+    levels, infix_fn, unary_fn, index_fn = ops.read_parser(binary, unary)
+    parser_bin = {tok: infix_fn[rule] for rule, tok in binary}
+    parser_un = {tok: unary_fn[rule] for rule, tok in unary}
+    book_bin, book_un, book_index = cs.book_alias_table(REPO)
+    chk.evaluations += 1
+    chk.coverage["book_alias_table"] = {"binary": book_bin, "unary": book_un, "index": book_index}
+    for tok in sorted(set(parser_bin) | set(dict(book_bin)) | set(DOC_BINARY)):
+        got, doc, mine = parser_bin.get(tok), dict(book_bin).get(tok), DOC_BINARY.get(tok, (None,))[0]
+        if got != doc:
+            chk.violation(f"syntax:alias:{tok}", f"operator `{tok}`: the parser calls {got!r}, the book (lang/functions.md) says {doc!r}",
+                          {"src": f"a {tok} b", "impl": got, "expected": doc})
+        elif mine != doc:
+            chk.violation("tie:syntax:alias-table", f"operator `{tok}` of the book ({doc!r}) is not in the table this check was written against ({mine!r})",
+                          {"token": tok, "book": doc, "check": mine}, no_input=True)
+    for tok in sorted(set(parser_un) | set(dict(book_un)) | set(DOC_UNARY)):
+        got, doc, mine = parser_un.get(tok), dict(book_un).get(tok), DOC_UNARY.get(tok)
+        if got != doc:
+            chk.violation(f"syntax:alias:unary{tok}", f"unary operator `{tok}`: the parser calls {got!r}, the book says {doc!r}",
+                          {"src": f"{tok}a", "impl": got, "expected": doc})
+        elif mine != doc:
+            chk.violation("tie:syntax:alias-table", f"unary operator `{tok}` of the book ({doc!r}) is not in this check's table ({mine!r})",
+                          {"token": tok, "book": doc, "check": mine}, no_input=True)
+    if index_fn != book_index:
+        chk.violation("syntax:alias:index", f"`a[b]`: the parser calls {index_fn!r}, the book says {book_index!r}",
+                      {"src": "a[b]", "impl": index_fn, "expected": book_index})
+    # the order in which the book lists the binary operators is compatible with the levels of the climber table
+    lv = [DOC_BINARY[t][1] for t, _ in book_bin if t in DOC_BINARY]
+    if lv != sorted(lv, reverse=True):
+        chk.violation("tie:syntax:alias-order", f"the book no longer lists the operators from tightest to loosest: {book_bin}", {"book": book_bin}, no_input=True)
+
+
+CMP_RESULTS = [0, 1, -1, 2, -2, 3, 7, -7, 100, -100, 2 ** 31, -(2 ** 31), 2 ** 63 - 1, 2 ** 63, -(2 ** 63), -(2 ** 63) - 1, 2 ** 64,
+               -(2 ** 64), 2 ** 64 + 1, 10 ** 30, -(10 ** 30)]
+DERIVED = {'lt': '<', 'le': '<=', 'gt': '>', 'ge': '>='}
+
+
+def run_derived_sweep(chk, quick):
+    """`<  <=  >  >=` on a struct whose user `cmp` returns a given integer, directly and one level up (tuple, sequence),
+    and `!=` for a user `eq`: implementation vs the documented function of cmp(a, b) (Python) vs the Lean model"""
+    rng = chk.rng
+    ks = list(CMP_RESULTS) + ([] if quick else [rng.randrange(-2 ** 70, 2 ** 70) for _ in range(200)] + list(range(-20, 21)))
+    reqs, meta, lines = [], [], []
+    for k in ks:
+        for f, sym in DERIVED.items():
+            forms = {"direct": f"P(1) {sym} P(2)", "call": f"{f}(P(1), P(2))", "method": f"P(1).{f}(P(2))",
+                     "tuple": f"(P(1), 5) {sym} (P(2), 5)", "tuple-later": f"(5, P(1)) {sym} (5, P(2))",
+                     "sequence": f"[P(1), P(1)] {sym} [P(2), P(2)]"}
+            src = f"struct P(x: int)\nfn cmp(a: P, b: P)->int{{{lit(k)}}}\n" + "".join(f"let r{i} = {t};\n" for i, t in enumerate(forms.values()))
+            reqs.append({"op": "run", "src": src, "get": [f"r{i}" for i in range(len(forms))]})
+            meta.append((f, k, list(forms), src))
+            lines.append(f"parse derived {f} {k}")
+    for e in (True, False):
+        src = f"struct P(x: int)\nfn eq(a: P, b: P)->bool{{{'true' if e else 'false'}}}\nlet r0 = P(1) != P(1);\nlet r1 = ne(P(1), P(2));\nlet r2 = (P(1), 1) != (P(1), 1);\nlet r3 = [P(1)] != [P(1)];\n"
+        reqs.append({"op": "run", "src": src, "get": ["r0", "r1", "r2", "r3"]})
+        meta.append(("ne", e, ["direct", "call", "tuple", "sequence"], src))
+    impl = run_harness(reqs)
+    model = run_model(lines)
+    for idx, ((f, k, forms, src), r) in enumerate(zip(meta, impl)):
+        names = [f"r{i}" for i in range(len(forms))]
+        ci = cg.canon_impl(r, names)
+        if f == "ne":
+            want = not k
+        else:
+            want = {'lt': k < 0, 'le': k <= 0, 'gt': k > 0, 'ge': k >= 0}[f]
+        wd = "(bool true)" if want else "(bool false)"
+        for form, n in zip(forms, names):
+            chk.evaluations += 1
+            chk.count(f"derived:{f}:{form}")
+            got = ci.get("vals", {}).get(n) if ci["outcome"] == "ok" else ci["outcome"]
+            if got != wd:
+                kind = "wrong-sign" if ci["outcome"] == "ok" else ci["outcome"].split(" ")[0]
+                what = (f"`{f}` on a struct with a user cmp returning {k}" if f != "ne" else f"`!=` on a struct with a user eq returning {k}")
+                chk.violation(f"derived:{f}:{form}:{kind}", f"{what} ({form} spelling) is {got}, documented: {wd} "
+                              f"(std/general.md: {f}(a, b) is decided by the sign of cmp(a, b) / ne is the negation of eq)",
+                              {"src": src, "get": names, "impl": ci, "expected": {"outcome": "ok", "out": [], "vals": {x: wd for x in names}}})
+        if f != "ne":
+            chk.nontrivial.add(f"{f}:{k}")
+            if model[idx] != ("true" if want else "false"):
+                chk.violation(f"tie:derived:{f}", f"the Lean model's derived {f} of cmp = {k} is {model[idx]}, the implementation and the documentation give {want}",
+                              {"model_request": lines[idx], "model": model[idx]}, no_input=True)
+
+
 def run(chk):
     rng = chk.rng
     quick = chk.tier == "quick"
@@ -621,6 +715,7 @@ def run(chk):
         handle_broken(chk)
 
     # (a) syntax
+    check_book_table(chk)
     run_soups(chk, 1500 if quick else 60000, 600 if quick else 30000)
 
     # (b) behavioural, every sugar spelling
@@ -636,6 +731,10 @@ def run(chk):
     for i in range(30 if quick else 600):
         ds = overload_program(rng)
         cases.append(Case(ds, "overload-plain", src=cg.Printer(None, sugar=False).program(ds)))
+    # user structs with user overloads of every operator-named function, unusual results (c02_structs.py)
+    for i in range(60 if quick else 3000):
+        cases.append(cs.struct_case(chk, rng, True, Case, spell))
+        cases.append(cs.struct_case(chk, rng, False, Case, spell))
     # the known finding: comparisons as neighbouring arguments / elements are taken for a generic binding
     for ds, src in generic_binding_cases():
         cases.append(Case(ds, "generic-binding", src=src))
@@ -653,6 +752,9 @@ def run(chk):
     res = three_way(chk, cases, "c02", nontrivial=lambda c, ev: True)
     for c, ci, cm, co, ev in res[:1]:
         chk.sample({"program": c.src, "out": ci.get("out")})
+
+    # derived comparisons: every sign and magnitude of a user cmp, every spelling, one level up
+    run_derived_sweep(chk, quick)
 
     # (d) library functions outside the core model: exactly once / documented short circuits (implementation vs documentation)
     run_library_order(chk)
